@@ -29,6 +29,46 @@ Lemma own_comparison (Arr Opnd Res : Type) (np_binop : vbinop -> Arr -> Opnd -> 
   is_ordering op = true -> view_binop Arr Opnd Res np_binop CSubField op mat x own = Some (own op).
 Proof. intros H. unfold view_binop. rewrite (route_subfield_ordering _ H). reflexivity. Qed.
 
+(* the view on the right: python's reflection *)
+Lemma mirror_comparison op : is_comparison (mirror op) = is_comparison op.
+Proof. destruct op; reflexivity. Qed.
+
+Lemma mirror_involutive op : mirror (mirror op) = op.
+Proof. destruct op; reflexivity. Qed.
+
+Lemma cmp_bool_mirror op a c : is_comparison op = true -> cmp_bool (mirror op) a c = cmp_bool op c a.
+Proof.
+  destruct op; cbn [is_comparison mirror cmp_bool]; intros H; try discriminate H; f_equal.
+  - apply Z.gtb_ltb.
+  - apply Z.geb_leb.
+  - symmetry. apply Z.gtb_ltb.
+  - symmetry. apply Z.geb_leb.
+  - apply Z.eqb_sym.
+  - f_equal. apply Z.eqb_sym.
+Qed.
+
+(* whatever reflected methods the classes define (today: none), an arithmetic `x <op> view` that returns a result
+   returns numpy's `x <op> np.array(view)` with the SAME operator and the operands in the written order *)
+Lemma reflected_arithmetic (Arr Opnd Res : Type) (np_binop : vbinop -> Arr -> Opnd -> Res) (np_rbinop : vbinop -> Opnd -> Arr -> Res)
+      c op x mat own r :
+  is_comparison op = false ->
+  view_on_right Arr Opnd Res np_binop np_rbinop c op x mat own = Some r -> r = np_rbinop op x mat.
+Proof.
+  intros Hc H. unfold view_on_right in H. rewrite Hc in H.
+  destruct c, op; cbn [is_comparison] in Hc; try discriminate Hc; cbv in H; try discriminate H;
+    injection H as H; symmetry; exact H.
+Qed.
+
+Lemma reflected_comparison (Arr Opnd Res : Type) (np_binop : vbinop -> Arr -> Opnd -> Res) (np_rbinop : vbinop -> Opnd -> Arr -> Res)
+      c op x mat own :
+  is_comparison op = true ->
+  view_on_right Arr Opnd Res np_binop np_rbinop c op x mat own = view_binop Arr Opnd Res np_binop c (mirror op) mat x own.
+Proof. intros Hc. unfold view_on_right. now rewrite Hc. Qed.
+
+Lemma inplace_is_binop (Arr Opnd Res : Type) (np_binop : vbinop -> Arr -> Opnd -> Res) c op mat x own :
+  view_inplace Arr Opnd Res np_binop c op mat x own = view_binop Arr Opnd Res np_binop c op mat x own.
+Proof. reflexivity. Qed.
+
 Lemma reduce_routes c multi args r :
   reduce_route c multi args r =
   match c with CScaled => if multi || args then RedMaterialised r else RedApplyGrid r | _ => RedMaterialised r end.
@@ -137,6 +177,18 @@ Proof.
   intros Hin Hbs Hop Hx. unfold sfv_binop_arr, np_cmp_const, sf_materialise. rewrite map_map.
   apply map_ext_in. intros b Hb. rewrite Forall_forall in Hbs.
   apply (sfv_binop_elem_correct fmt name composed); auto.
+Qed.
+
+(* the constant on the LEFT: python's mirrored comparison of the view is numpy's `c <op> np.array(view)` *)
+Lemma sfv_rbinop_arr_correct fmt name composed m bs op x c :
+  In (fmt, name, composed, m) all_sub_fields -> Forall (fun b => 0 <= b < 256) bs -> is_comparison op = true ->
+  operand_int x = Some c ->
+  sfv_rbinop_arr m bs op x = np_rcmp_const op c (sf_materialise m bs).
+Proof.
+  intros Hin Hbs Hop Hx. unfold sfv_rbinop_arr.
+  assert (Hm : is_comparison (mirror op) = true) by now rewrite mirror_comparison.
+  rewrite (sfv_binop_arr_correct fmt name composed m bs (mirror op) x c Hin Hbs Hm Hx).
+  unfold np_cmp_const, np_rcmp_const. apply map_ext. intros v. now apply cmp_bool_mirror.
 Qed.
 
 Lemma combine_map_l {A B C} (f : A -> B) (l : list A) : forall (l' : list C),
